@@ -107,6 +107,17 @@ fn from_abbr(rep: &mut Report) {
             inputs.push([a, b].iter().collect());
         }
     }
+    // every abbreviation extended by one character on either side, and every concatenation of two abbreviations
+    // (a lookup that matches on a prefix or suffix of its input)
+    for m in model {
+        for &c in &chars {
+            inputs.push(format!("{}{}", m.abbr, c));
+            inputs.push(format!("{}{}", c, m.abbr));
+        }
+        for m2 in model {
+            inputs.push(format!("{}{}", m.abbr, m2.abbr));
+        }
+    }
     if thorough() {
         for &a in &chars {
             for &b in &chars {
@@ -116,6 +127,8 @@ fn from_abbr(rep: &mut Report) {
             }
         }
     }
+    inputs.sort();
+    inputs.dedup();
     rep.count("alphabet_chars", chars.len() as u64);
     for s in &inputs {
         rep.inc("states");
